@@ -22,7 +22,7 @@ RULE = ("cases: bounded-exhaustive sweep (all formulas with <=2 levels, arity<=3
         "0-3 sub-conditions x optional ids); all 2^n assignments judged. non-trivial: AST depth>=2 or a negating connective "
         "(Not, Imply, XNor, AtMost, FORBIDS_ALL); distinct by AST digest and route"
         ' Also: sibling sub-formulas that collide on a generated id, AtLeast/AtMost arguments handed over as one-shot iterables, arity up to 6; well-formed formulas are judged even when errors() is non-empty (duplicate arguments excluded).')
-BUDGET = {"quick": (12, 600, 90), "thorough": (16, 5000, 1200)}
+BUDGET = {"quick": (12, 1800, 90), "thorough": (16, 5000, 1200)}
 CONNECTIVES = ["All", "Any", "AtLeast", "AtMost", "Xor", "ExactlyOne", "XNor", "Imply", "Not"]
 PYTEST = True     # thorough tier also runs the repository's own tests under these monitors
 MANDATORY = ["judged:truth-table:ctor", "judged:truth-table:json", "judged:truth-table:cicJE", "contract:plog.from_json",
@@ -288,11 +288,17 @@ def shape_key(a):
     ch = tuple(sorted(map(repr, (shape_key(x) for x in args))))
     k = a["k"]
     n = len(a["args"])
-    norm = {"All": ("AL", n, "None"), "Any": ("AL", 1, "None")}.get(k)
+    sg = lambda v, s_: int(s_) if s_ is not None else (1 if v > 0 else -1)          # the sign the constructor derives when none is passed
+    norm = {"All": ("AL", n, sg(n, None)), "Any": ("AL", 1, 1)}.get(k)
     if k == "AtLeast":
-        norm = ("AL", a["value"], str(a.get("sign")))
+        norm = ("AL", a["value"], sg(a["value"], a.get("sign")))
     elif k == "AtMost":
-        norm = ("AL", -a["value"], "-1")
+        norm = ("AL", -a["value"], -1)
+    if k == "Not" and args and not args[0].get("id") and all(x["k"] in ("var", "str") for x in args[0].get("args", [{"k": "x"}])):
+        # the negation of a threshold over leaves only is again a threshold over the same leaves: not(s*sum >= v)  <=>  -s*sum >= 1-v
+        inner = shape_key(args[0])
+        if isinstance(inner[0], tuple) and inner[0][0] == "AL":
+            return (("AL", 1 - inner[0][1], -inner[0][2]), inner[1])
     return (norm or k, ch)
 
 
